@@ -7,12 +7,14 @@
    (how to edit it when a repair lands or is reverted: /verif/notes/C01.md, section "Switching"). *)
 From Coq Require Import List NArith Bool String.
 From YVGen Require Import GcTables.
-From YV Require Import Heap HeapTablesRef Collect Mutator CollectProofs MutatorProofs CollectExt.
+From YV Require Import Heap HeapTablesRef Collect Mutator CollectProofs MutatorProofs CollectExt PinnedC01.
 (* CollectRun (runner of the snapshot correspondence) is imported so that `make props/C01.vo` keeps it up to date *)
 From YV Require CollectRun.
 Import ListNotations.
 
-Notation run_gen := (run marks_gen blackens_black_gen blackens_mark_gen holds_gen pinned_ref).
+(* `pinned_audit` (theories/PinnedC01.v): untraced roles whose target a permanent root keeps, audited against the
+   current sources; it no longer exempts (KClosure, RModule) as HeapTablesRef.pinned_ref did *)
+Notation run_gen := (run marks_gen blackens_black_gen blackens_mark_gen holds_gen pinned_audit).
 
 (* ---------- the translator understood every struct field and every impl ---------- *)
 Theorem C01_translator_complete : gen_unknown = [].
@@ -48,10 +50,10 @@ Definition c01_open_pairs : list (kind * role) :=
 
 (* -- statements that do not change when switching -- *)
 (* exactly the open classes are uncovered *)
-Theorem C01_uncovered_exact : uncovered holds_gen marks_gen pinned_ref = c01_open_pairs.
+Theorem C01_uncovered_exact : uncovered holds_gen marks_gen pinned_audit = c01_open_pairs.
 Proof. vm_compute; reflexivity. Qed.
 (* every role outside the open classes is followed by `mark` or pinned by a permanent root *)
-Definition pinned_c01 : kind -> role -> bool := pinned_plus pinned_ref c01_open_pairs.
+Definition pinned_c01 : kind -> role -> bool := pinned_plus pinned_audit c01_open_pairs.
 Theorem C01_holds_covered_modulo_open : tables_cover holds_gen marks_gen pinned_c01 = true.
 Proof. vm_compute; reflexivity. Qed.
 (* schedule independence with both premises explicit: for programs that store into the open roles only
@@ -107,11 +109,11 @@ Print Assumptions C01_schedule_divergence_refuted.
 
 (* ---- variant ALL-COVERED (begin; active) ---- *)
 (* every role a struct can hold is followed by `mark` or pinned by a permanent root *)
-Theorem C01_holds_covered : tables_cover holds_gen marks_gen pinned_ref = true.
+Theorem C01_holds_covered : tables_cover holds_gen marks_gen pinned_audit = true.
 Proof. vm_compute; reflexivity. Qed.
 Theorem C01_holds_covered_spec :
-  forall k r, In r (holds_gen k) -> marks_gen k r = true \/ pinned_ref k r = true.
-Proof. exact (holds_covered holds_gen marks_gen pinned_ref C01_holds_covered). Qed.
+  forall k r, In r (holds_gen k) -> marks_gen k r = true \/ pinned_audit k r = true.
+Proof. exact (holds_covered holds_gen marks_gen pinned_audit C01_holds_covered). Qed.
 (* for EVERY mutator program and every two schedules: same observation trace, no use of a reclaimed box,
    no divergence *)
 Theorem C01_schedule_independence :
@@ -119,7 +121,7 @@ Theorem C01_schedule_independence :
     run_gen nregs sched1 p = run_gen nregs sched2 p /\ has_uaf (run_gen nregs sched1 p) = false /\
     has_diverged (run_gen nregs sched1 p) = false.
 Proof.
-  exact (schedule_independence marks_gen blackens_black_gen blackens_mark_gen holds_gen pinned_ref
+  exact (schedule_independence marks_gen blackens_black_gen blackens_mark_gen holds_gen pinned_audit
            C01_holds_covered C01_no_regrey).
 Qed.
 Print Assumptions C01_holds_covered.
@@ -128,7 +130,7 @@ Print Assumptions C01_schedule_independence.
 (* ---- variant ALL-COVERED (end) ---- *)
 
 (* ---- variant SOME-OPEN (begin; inactive)
-Theorem C01_holds_covered_refuted : tables_cover holds_gen marks_gen pinned_ref = false.
+Theorem C01_holds_covered_refuted : tables_cover holds_gen marks_gen pinned_audit = false.
 Proof. vm_compute; reflexivity. Qed.
 Theorem C01_holds_covered_spec :
   forall k r, In r (holds_gen k) -> marks_gen k r = true \/ pinned_c01 k r = true.
@@ -136,12 +138,38 @@ Proof. exact (holds_covered holds_gen marks_gen pinned_c01 C01_holds_covered_mod
 Print Assumptions C01_holds_covered_refuted.
 Print Assumptions C01_holds_covered_spec.
 ---- variant SOME-OPEN (end) *)
-(* (while (KUpvalue, ROpenSlot) was open the block also held
-   C01_schedule_dependence_refuted : has_uaf (run_gen 3 [false; false; true] prog_upvalue) = true /\
-                                     has_uaf (run_gen 3 [] prog_upvalue) = false;
-   the same witness for the hand-transcribed tables is MutatorProofs.other_uncovered_roles.) *)
 (* ==== SWITCH BLOCK (end) ================================================================ *)
 (* ======================================================================================== *)
+
+(* ---------- the repaired defects, kept as witnesses against the regenerated tables ----------
+   For each repaired trace edge: the generated tables with that one pair switched off again (`without_pair`)
+   leave exactly that pair uncovered, and a three-allocation mutator program uses a reclaimed box under a
+   schedule that collects, but not under the schedule that never does. *)
+Open Scope N_scope.
+(* 342604d: ObjClosure.module.  A module that left the registry (reload after a failed import, Vm::reset) and is
+   referenced only by a closure that escaped from it.  HeapTablesRef.pinned_ref exempted the pair, which is
+   why the side condition accepted the old code: *)
+Definition prog_closure_module : list mop :=
+  [MAlloc KModule 72 0; MAlloc KClosure 48 1; MStore 1 RModule 0; MDropRoot 0; MAlloc KString 48 2; MObserve 1 2].
+Theorem C01_closure_module_refuted_old :
+  let marks_old := without_pair marks_gen KClosure RModule in
+  let bb_old := without_pair blackens_black_gen KClosure RModule in
+  uncovered holds_gen marks_old pinned_audit = (KClosure, RModule) :: c01_open_pairs /\
+  tables_cover holds_gen marks_old pinned_ref = tables_cover holds_gen marks_gen pinned_ref /\
+  has_uaf (run marks_old bb_old blackens_mark_gen holds_gen pinned_audit 3 [false; false; true] prog_closure_module) = true /\
+  has_uaf (run marks_old bb_old blackens_mark_gen holds_gen pinned_audit 3 [] prog_closure_module) = false /\
+  has_uaf (run_gen 3 [false; false; true] prog_closure_module) = false.
+Proof. repeat split; vm_compute; reflexivity. Qed.
+(* 8e4673f: an open upvalue's stack slot lives in a fiber that nothing else reaches *)
+Theorem C01_open_upvalue_refuted_old :
+  let marks_old := without_pair marks_gen KUpvalue ROpenSlot in
+  let bb_old := without_pair blackens_black_gen KUpvalue ROpenSlot in
+  uncovered holds_gen marks_old pinned_audit = (KUpvalue, ROpenSlot) :: c01_open_pairs /\
+  has_uaf (run marks_old bb_old blackens_mark_gen holds_gen pinned_audit 3 [false; false; true] prog_upvalue) = true /\
+  has_uaf (run marks_old bb_old blackens_mark_gen holds_gen pinned_audit 3 [] prog_upvalue) = false /\
+  has_uaf (run_gen 3 [false; false; true] prog_upvalue) = false.
+Proof. repeat split; vm_compute; reflexivity. Qed.
+Close Scope N_scope.
 
 (* ---------- the collector, with the generated tables ---------- *)
 Theorem C01_collect_retains_reach : forall h h' a,
@@ -179,6 +207,8 @@ Print Assumptions C01_tables_agree.
 Print Assumptions C01_uncovered_exact.
 Print Assumptions C01_holds_covered_modulo_open.
 Print Assumptions C01_schedule_independence_modulo.
+Print Assumptions C01_closure_module_refuted_old.
+Print Assumptions C01_open_upvalue_refuted_old.
 Print Assumptions C01_collect_retains_reach.
 Print Assumptions C01_collect_closed.
 Print Assumptions C01_collect_only_reach.
